@@ -34,8 +34,8 @@ META = {
                   "structurally. opt_einsum is used when importable.",
     "shards": {"quick": 3, "thorough": 16},
     "budget_s": {"quick": 110, "thorough": 300},
-    "min_evals": {"quick": 150, "thorough": 3000},
-    "min_nontrivial": {"quick": 60, "thorough": 1000},
+    "min_evals": {"quick": 150, "thorough": 1500},
+    "min_nontrivial": {"quick": 60, "thorough": 500},
     "deciding": ["cut.value", "cut.fragments", "mc.expectation"],
     "rule": "case = (circuit, cut placement, observable, entry point, cutter); distinct = distinct structural fingerprint of the tape; non-trivial = the "
             "cut(s) split the circuit into >= 2 fragments (more tapes than a single fragment's configurations) and the observable is not the identity",
